@@ -94,6 +94,8 @@ type Frame struct {
 	siteN    map[string]int
 	ranks    map[string]map[token.Pos]int
 	curCallClass string
+	siteInvs     []*Clause // call-site invariants of the call being encoded (see Contract.CallInvariants)
+	siteKey      string
 	// loop analysis
 	order    []*ssa.BasicBlock
 	backEdge map[[2]int]bool
